@@ -749,12 +749,8 @@ func (m *balMon) step(op balOp, o balObs) {
 				// fully burnt or zero-amount lock: account may linger with 0 until the tick
 			}
 			if op.Epoch >= l.until {
-				if l.until == 0 {
-					if o.balances[li].Sign() != 0 || true {
-						m.st.AddKnown("C09/until-zero")
-					}
-					continue
-				}
+				// until = 0 (or negative) is an expiry in the past like any other: released by the
+				// next tick (fix commit in /repo: lock accounts are recognised by their parent)
 				pi := m.idx(l.parent)
 				if expect[pi] == nil {
 					expect[pi] = new(big.Int)
